@@ -516,7 +516,7 @@ class Flow:
 
             def visit_Lambda(self, n):
                 return n
-        return T().generic_visit(comp)
+        return fuse_comprehension(T().generic_visit(comp))
 
     def _call(self, fname, *args):
         return ast.Call(func=ast.Name(id=fname, ctx=ast.Load()), args=list(args), keywords=[])
@@ -756,7 +756,44 @@ class Flow:
 
     def _iter_value(self, it, path, d, depth, st):
         itx = self.expand(it, d, depth - 1, st)
+        while isinstance(itx, ast.Call) and call_name(itx) in ("list", "tuple", "iter") and len(itx.args) == 1 and not itx.keywords:
+            itx = itx.args[0]
         cn = call_name(itx)
+        # iterating a mapping comprehension  [g(s) for s in S]  yields  g(<element of S>)
+        inner = itx.args[0] if cn == "enumerate" and itx.args else itx
+        while isinstance(inner, ast.Call) and call_name(inner) in ("list", "tuple") and len(inner.args) == 1:
+            inner = inner.args[0]
+        if isinstance(inner, (ast.ListComp, ast.GeneratorExp)) and len(inner.generators) == 1 and not inner.generators[0].ifs:
+            g = inner.generators[0]
+            if cn == "enumerate" and path and path[0] == 0:
+                return self._iter_value_expanded(ast.Call(func=ast.Name(id="enumerate", ctx=ast.Load()), args=[g.iter], keywords=[]), path, depth, st)
+            epath = path[1:] if cn == "enumerate" else path
+            if cn != "enumerate" or (path and path[0] == 1):
+                mapping = {}
+
+                def bind(t, p):
+                    if isinstance(t, ast.Name):
+                        mapping[t.id] = self._iter_value_expanded(g.iter, p, depth, st)
+                    elif isinstance(t, (ast.Tuple, ast.List)):
+                        for i, x in enumerate(t.elts):
+                            bind(x, p + (i,))
+                bind(g.target, ())
+                v = _subst_names(copy.deepcopy(inner.elt), mapping)
+                for i in epath:
+                    if isinstance(v, (ast.Tuple, ast.List)) and isinstance(i, int) and i < len(v.elts):
+                        v = v.elts[i]
+                    else:
+                        v = self._call("__item__", v, ast.Constant(value=i))
+                return v
+        return self._iter_value_expanded(itx, path, depth, st)
+
+    def _iter_value_expanded(self, itx, path, depth, st):
+        itx = _strip_seq(itx)
+        cn = call_name(itx)
+        if cn in ("enumerate", "zip") and itx.args:
+            itx = ast.Call(func=itx.func, args=[_strip_seq(a) for a in itx.args], keywords=itx.keywords)
+        elif cn == "range" and len(itx.args) == 1 and call_name(itx.args[0]) == "len" and itx.args[0].args:
+            itx = ast.Call(func=itx.func, args=[ast.Call(func=itx.args[0].func, args=[_strip_seq(itx.args[0].args[0])], keywords=[])], keywords=[])
         if cn == "enumerate" and itx.args and path:
             base = itx.args[0]
             v = self._call("__idx__", base) if path[0] == 0 else self._call("__elem__", base)
@@ -898,3 +935,59 @@ def linear(e, norm=None):
 
 def same_expr(a, b):
     return ast.dump(a) == ast.dump(b)
+
+
+def _subst_names(e, mapping):
+    class T(ast.NodeTransformer):
+        def visit_Name(self, n):
+            if n.id in mapping and isinstance(n.ctx, ast.Load):
+                return copy.deepcopy(mapping[n.id])
+            return n
+
+        def visit_Lambda(self, n):
+            return n
+    return T().visit(e)
+
+
+def fuse_comprehension(comp):
+    """[f(e) for e in [g(s) for s in S if p(s)] if q(e)]  ->  [f(g(s)) for s in S if p(s) if q(g(s))]   (single generators;
+    tuple targets are matched against a tuple element).  Loop fusion is behaviour-preserving for side-effect-free elements,
+    which is what the rules assume of the expressions they compare anyway."""
+    if not isinstance(comp, (ast.ListComp, ast.GeneratorExp, ast.SetComp, ast.DictComp)) or len(comp.generators) != 1:
+        return comp
+    g = comp.generators[0]
+    it = g.iter
+    while isinstance(it, ast.Call) and call_name(it) in ("list", "tuple") and len(it.args) == 1 and not it.keywords:
+        it = it.args[0]
+    if not (isinstance(it, (ast.ListComp, ast.GeneratorExp)) and len(it.generators) == 1):
+        return comp
+    ig = it.generators[0]
+    mapping = {}
+    if isinstance(g.target, ast.Name):
+        mapping[g.target.id] = it.elt
+    elif isinstance(g.target, (ast.Tuple, ast.List)) and isinstance(it.elt, (ast.Tuple, ast.List)) and len(g.target.elts) == len(it.elt.elts) \
+            and all(isinstance(t, ast.Name) for t in g.target.elts):
+        for t, v in zip(g.target.elts, it.elt.elts):
+            mapping[t.id] = v
+    else:
+        return comp
+    inner_names = {n.id for n in ast.walk(ig.target) if isinstance(n, ast.Name)}
+    outer_free = {n.id for f in ([comp.elt] if not isinstance(comp, ast.DictComp) else [comp.key, comp.value]) + list(g.ifs) for n in ast.walk(f)
+                  if isinstance(n, ast.Name)} - set(mapping)
+    if inner_names & outer_free:
+        return comp             # capture
+    new = copy.copy(comp)
+    if isinstance(comp, ast.DictComp):
+        new.key = _subst_names(copy.deepcopy(comp.key), mapping)
+        new.value = _subst_names(copy.deepcopy(comp.value), mapping)
+    else:
+        new.elt = _subst_names(copy.deepcopy(comp.elt), mapping)
+    new.generators = [ast.comprehension(target=ig.target, iter=ig.iter, ifs=list(ig.ifs) + [_subst_names(copy.deepcopy(c), mapping) for c in g.ifs], is_async=0)]
+    return fuse_comprehension(new)
+
+
+def _strip_seq(e):
+    """list(X) / tuple(X) / iter(X) -> X (the sequence of elements is the same)"""
+    while isinstance(e, ast.Call) and call_name(e) in ("list", "tuple", "iter") and len(e.args) == 1 and not e.keywords:
+        e = e.args[0]
+    return e
